@@ -22,15 +22,6 @@ impl Poly {
 
 
 
-/// `Inverter::invert` (Kaliski almost-inverse, not under contract): assumed to return a residue, inverse of x modulo
-/// the divider's prime when x is not a multiple of it
-pub assume_specification [arith::Inverter::invert] (inv: &arith::Inverter, x: u32, div: &arith::Dividers) -> (r: u32)
-    requires x != 0
-    ensures div.wf() ==> (r as int) < div.pv() && (x as int % div.pv() != 0 ==> cong(r as int * x as int, 1, div.pv()));
-
-#[verifier::external_type_specification]
-#[verifier::external_body]
-pub struct ExInverter(arith::Inverter);
 
 pub assume_specification<const N: usize> [ bnum::BInt::<N>::is_negative ] (x: bnum::BInt<N>) -> (r: bool)
     ensures r == (iv(x) < 0);
